@@ -3,6 +3,8 @@ package props
 import (
 	"fmt"
 	"math"
+	"sort"
+	"strings"
 	"testing"
 
 	"github.com/256dpi/lungo"
@@ -158,7 +160,13 @@ func (o *oraclePersist) after(r *hRun, step, res bson.D) error {
 			}
 		}
 	}
-	// a TTL pass removes the same documents on both
+	if da, db := catalogDumpOpts(eA.engine.Catalog(), true, true), catalogDumpOpts(eB.engine.Catalog(), true, true); da != db {
+		return fmt.Errorf("after identical probe writes the pre-close and the reopened database differ:\n--- pre-close\n%s--- reopened\n%s", da, db)
+	}
+	// a TTL pass removes the same documents on both; the pass visits the
+	// collections in no particular order, so the events it appends are
+	// compared as a set
+	oplogLen := len(eA.engine.Catalog().Namespaces[lungo.Oplog].Documents.List)
 	for _, e := range []*hEnv{eA, eB} {
 		txn, err := e.engine.Begin(nil, true)
 		if err != nil {
@@ -172,7 +180,7 @@ func (o *oraclePersist) after(r *hRun, step, res bson.D) error {
 			return fmt.Errorf("harness: %v", err)
 		}
 	}
-	if da, db := catalogDumpOpts(eA.engine.Catalog(), true, true), catalogDumpOpts(eB.engine.Catalog(), true, true); da != db {
+	if da, db := sortOplogTail(catalogDumpOpts(eA.engine.Catalog(), true, true), oplogLen), sortOplogTail(catalogDumpOpts(eB.engine.Catalog(), true, true), oplogLen); da != db {
 		return fmt.Errorf("after identical probe writes and an expiry pass the pre-close and the reopened database differ:\n--- pre-close\n%s--- reopened\n%s", da, db)
 	}
 	if nsCount >= 2 && optIdx >= 1 && fragile >= 1 {
@@ -200,3 +208,28 @@ var propC06 = Register(&Prop{ID: "C06", Sub: "history",
 })
 
 func TestProp_C06_history(t *testing.T) { propC06.Check(t) }
+
+// sortOplogTail sorts the change-log events of a normalised dump from
+// position from on (events appended by one expiry pass have no defined order
+// across collections).
+func sortOplogTail(dump string, from int) string {
+	lines := strings.Split(dump, "\n")
+	start := -1
+	for i, l := range lines {
+		if l == "NS "+lungo.Oplog.String() {
+			start = i + 1
+			break
+		}
+	}
+	if start < 0 {
+		return dump
+	}
+	end := start
+	for end < len(lines) && strings.HasPrefix(lines[end], " D ") {
+		end++
+	}
+	if start+from < end {
+		sort.Strings(lines[start+from : end])
+	}
+	return strings.Join(lines, "\n")
+}
